@@ -5,18 +5,18 @@ namespace TopSearch.Gen.HashSites
 abbrev Site := String × String × String
 
 def sites : List Site := [
-  ("analysis/batch_selection.py", "get_excluded_minima", "set(excluded_minima)"),
+  ("analysis/batch_selection.py", "get_excluded_minima", "set(v2)"),
   ("analysis/graph_properties.py", "unconnected_component", "set(range(ktn.n_minima))"),
-  ("analysis/graph_properties.py", "unconnected_component", "set(connected_set)"),
+  ("analysis/graph_properties.py", "unconnected_component", "set(v2)"),
   ("analysis/pair_selection.py", "connect_to_set", "set(range(ktn.n_minima))"),
-  ("analysis/pair_selection.py", "connect_to_set", "set(s_set)"),
+  ("analysis/pair_selection.py", "connect_to_set", "set(v0)"),
   ("analysis/pair_selection.py", "connect_to_set", "set()"),
-  ("analysis/pair_selection.py", "unique_pairs", "set(final_pairs)"),
-  ("data/coordinates.py", "get_rotatable_dihedrals", "set((tuple(x) for x in self.rotatable_dihedrals))"),
-  ("data/coordinates.py", "get_rotatable_dihedrals", "set((tuple(x) for x in removals))"),
-  ("data/coordinates.py", "remove_repeat_angles", "set([i[1] for i in angles])"),
+  ("analysis/pair_selection.py", "unique_pairs", "set(v0)"),
+  ("data/coordinates.py", "get_rotatable_dihedrals", "set((tuple(v11) for v11 in self.rotatable_dihedrals))"),
+  ("data/coordinates.py", "get_rotatable_dihedrals", "set((tuple(v11) for v11 in v8))"),
+  ("data/coordinates.py", "remove_repeat_angles", "set([v1[1] for v1 in angles])"),
   ("similarity/molecular_similarity.py", "get_permutable_groups", "set(coords1.atom_labels)"),
-  ("similarity/molecular_similarity.py", "get_permutable_groups", "set((tuple(sorted(row)) for row in elements_bonds1))")
+  ("similarity/molecular_similarity.py", "get_permutable_groups", "set((tuple(sorted(v13)) for v13 in v10))")
 ]
 
 /-- reason per site: element type int / int tuple (CPython's hash of these does not depend on
@@ -24,17 +24,17 @@ def sites : List Site := [
     `C11_group_order_irrelevant`) -/
 def justified : List Site := [
   ("analysis/graph_properties.py", "unconnected_component", "set(range(ktn.n_minima))"),  -- ints,
-  ("analysis/graph_properties.py", "unconnected_component", "set(connected_set)"),  -- ints,
+  ("analysis/graph_properties.py", "unconnected_component", "set(v2)"),  -- ints (connected_set),
   ("analysis/pair_selection.py", "connect_to_set", "set(range(ktn.n_minima))"),  -- ints,
-  ("analysis/pair_selection.py", "connect_to_set", "set(s_set)"),  -- ints,
+  ("analysis/pair_selection.py", "connect_to_set", "set(v0)"),  -- ints (s_set),
   ("analysis/pair_selection.py", "connect_to_set", "set()"),  -- empty,
-  ("analysis/pair_selection.py", "unique_pairs", "set(final_pairs)"),  -- tuples of ints,
-  ("analysis/batch_selection.py", "get_excluded_minima", "set(excluded_minima)"),  -- ints,
-  ("data/coordinates.py", "get_rotatable_dihedrals", "set((tuple(x) for x in self.rotatable_dihedrals))"),  -- tuples of ints (atom indices),
-  ("data/coordinates.py", "get_rotatable_dihedrals", "set((tuple(x) for x in removals))"),  -- tuples of ints (atom indices),
-  ("data/coordinates.py", "remove_repeat_angles", "set([i[1] for i in angles])"),  -- ints (atom indices),
+  ("analysis/pair_selection.py", "unique_pairs", "set(v0)"),  -- tuples of ints (final_pairs),
+  ("analysis/batch_selection.py", "get_excluded_minima", "set(v2)"),  -- ints (excluded_minima),
+  ("data/coordinates.py", "get_rotatable_dihedrals", "set((tuple(v11) for v11 in self.rotatable_dihedrals))"),  -- tuples of ints (atom indices),
+  ("data/coordinates.py", "get_rotatable_dihedrals", "set((tuple(v11) for v11 in v8))"),  -- tuples of ints (atom indices),
+  ("data/coordinates.py", "remove_repeat_angles", "set([v1[1] for v1 in angles])"),  -- ints (atom indices),
   ("similarity/molecular_similarity.py", "get_permutable_groups", "set(coords1.atom_labels)"),  -- strings: order irrelevant by C11_group_order_irrelevant,
-  ("similarity/molecular_similarity.py", "get_permutable_groups", "set((tuple(sorted(row)) for row in elements_bonds1))")  -- tuples of strings: order irrelevant by C11_group_order_irrelevant
+  ("similarity/molecular_similarity.py", "get_permutable_groups", "set((tuple(sorted(v13)) for v13 in v10))")  -- tuples of strings: order irrelevant by C11_group_order_irrelevant
 ]
 
 /-- the Pool method that hands the pairs to the workers (`map` blocks until every task has been
